@@ -4,7 +4,7 @@ From Coq Require Import Strings.Byte Strings.String.
 Require Import CU.model.Prim CU.model.Types CU.model.Unicode CU.model.Card.
 Require Import CU.model.Block CU.model.Vbs CU.gen.GenConfig.
 Require Import CU.spec.LuhnSpec CU.spec.FramingSpec.
-Require Import CU.extract.Text CU.extract.DriverIso CU.extract.DriverParam CU.extract.DriverInfo CU.extract.DriverPin.
+Require Import CU.extract.Text CU.extract.DriverIso CU.extract.DriverParam CU.extract.DriverInfo CU.extract.DriverPin CU.extract.DriverCsv.
 Import ListNotations.
 
 
@@ -91,7 +91,10 @@ Definition run_line (line : text) : text :=
     | None =>
     match run_pin op args with
     | Some r => r
+    | None =>
+    match run_csv op args with
+    | Some r => r
     | None => T "BADOP"
-    end end end end end end
+    end end end end end end end
   | [] => T "BADOP"
   end.
